@@ -53,6 +53,22 @@ impl Scalar for HPair {
     }
 }
 
+/// A 16-byte value of alignment 4 (a record is then 24 bytes: the value size does not divide it).
+#[repr(transparent)]
+#[derive(Clone, Copy, Default, PartialEq, Hash)]
+pub struct Q16(pub [u32; 4]);
+unsafe impl bytemuck::Zeroable for Q16 {}
+unsafe impl bytemuck::Pod for Q16 {}
+impl Scalar for Q16 {
+    fn from_i(x: i128) -> Self {
+        let u = x as u128;
+        Q16([u as u32, (u >> 32) as u32, (u >> 64) as u32, (u >> 96) as u32])
+    }
+    fn to_i(self) -> i128 {
+        ((self.0[0] as u128) | ((self.0[1] as u128) << 32) | ((self.0[2] as u128) << 64) | ((self.0[3] as u128) << 96)) as i128
+    }
+}
+
 pub fn run_t<V: Scalar + Hash + PartialEq>(case: &Case, full: bool, fill: u8, out: &mut String) {
     let toks: Vec<&str> = case.header.iter().map(|s| s.as_str()).collect();
     let mode = kv(&toks, "mode").unwrap_or("persistent".into());
@@ -231,9 +247,11 @@ pub fn run(case: &Case, full: bool, fill: u8, out: &mut String) {
     }
     match vty.as_str() {
         "u64" => run_t::<u64>(case, full, fill, out),
+        "u128" => run_t::<u128>(case, full, fill, out),
         "u32" => run_t::<u32>(case, full, fill, out),
         "u8" => run_t::<u8>(case, full, fill, out),
         "hpair" => run_t::<HPair>(case, full, fill, out),
+        "q16" => run_t::<Q16>(case, full, fill, out),
         other => panic!("unknown vty {}", other),
     }
 }
